@@ -254,6 +254,38 @@ def main(argv):
                                              observed=dict(fparser=got, standard=want)))
                 elif len(samples) < 3 and n == maxops and distinct % 977 == 0:
                     samples.append(dict(text=text, grouping=want))
+    # every spelling of every intrinsic operator, in the contexts where its level matters (the tree enumeration above uses
+    # one or two representatives per level)
+    SPELLINGS = {6: ["==", "/=", "<", "<=", ">", ">=", ".eq.", ".ne.", ".lt.", ".le.", ".gt.", ".ge.", ".EQ.", ".Ne.", ". ne .", ".GE."],
+                 4: [".and.", ".AND.", ".And."], 3: [".or.", ".OR."], 2: [".eqv.", ".neqv.", ".EQV.", ".NEQV."],
+                 7: ["//"], 8: ["+", "-"], 9: ["*", "/"], 10: ["**"]}
+    CONTEXTS = ["a %s b", "a .and. b %s c", "a %s b .and. c", ".not. a %s b", "a .or. b %s c", "a %s b .eqv. c", "a + b %s c * d", "a %s b + c",
+                "a // b %s c", "a .myop. b %s c", "(a %s b) .and. c", "a ** b %s c", "- a %s b"]
+    for std in ("f2003", "f2008"):
+        ParserFactory().create(std=std)
+        from fparser.two.Fortran2003 import Expr
+        for level, spellings in SPELLINGS.items():
+            for sp in spellings:
+                for ctx in CONTEXTS:
+                    text = ctx % sp
+                    cases += 1
+                    try:
+                        want = norm(parse_expr(text.replace(". ne .", ".ne.")))
+                    except Exception:
+                        continue        # not a valid expression (e.g. two non-associative relational operators in a row)
+                    distinct += 1
+                    try:
+                        got = norm(fparser_paren(Expr(text)))
+                    except FparserException:
+                        got = "no-match"
+                    if got != want:
+                        oid = "two.Fortran2003:Expr#operator_spelling_groups_at_its_level"
+                        if got == "no-match" and ".myop." in text and "." in text.split(".myop.")[1]:
+                            oid = "two.Fortran2003:Expr#accepts.defined_binary_op_followed_by_dotted_operator"
+                            if any(f["obligation"] == oid and f["witness"]["std"] == std for f in failures):
+                                continue
+                        if len(failures) < 40:
+                            failures.append(dict(obligation=oid, witness=dict(std=std, text=text, operator=sp), observed=dict(fparser=got, standard=want)))
     print(json.dumps(dict(name="bounded_expr", cases=cases, distinct=distinct, exhaustive=True, failures=failures, samples=samples or [dict(table=rows[:3])],
                           rule="expression trees with up to N operators (N=2 quick, 3 thorough) over %d operators and %d operand kinds, minimal parentheses; "
                                "a case counts when the generator's intended grouping and the independent reference parser agree" % (len(OPS), len(OPERANDS)),
